@@ -10,6 +10,8 @@ WT=$(mktemp -d "$TMPBASE/verif-seeded-XXXXXX")
 git -C /repo worktree add -q --detach "$WT" HEAD || exit 3
 cleanup() { git -C /repo worktree remove --force "$WT" >/dev/null 2>&1; rm -rf "$WT"; }
 trap cleanup EXIT
+# untracked generated files that are part of /repo's working tree state
+[ -f /repo/spsdk/__version__.py ] && cp /repo/spsdk/__version__.py "$WT/spsdk/__version__.py"
 if ! git -C "$WT" apply "$PATCH"; then echo "PATCH-DOES-NOT-APPLY"; exit 3; fi
 OUT=$(cd "$HERE" && VERIF_REPO="$WT" timeout 1500 ./check "$PROP" --no-evidence "$@" 2>&1)
 RC=$?
